@@ -43,32 +43,22 @@ def shards(tier, seed):
     L = S.max_len(tier)
     out = [{"R": R, "H": H} for R in range(L + 1) for H in range(L + 1)]
     out += [{"large": list(x), "cost": c} for x in LARGE for c in ((1.0, 1.0, 1.0), (1.0, 0.5, 2.0))]
+    # the same kind of instance with token ids >= 2^24, and through scripted / traced modules
+    out += [{"large": [31, 30, 40], "cost": (1.0, 2.0, 3.0), "id_offset": S.BIG_ID},
+            {"large": [31, 30, 40], "cost": (0.5, 0.5, 0.5), "id_offset": S.BIG_ID},
+            {"large": [31, 30, 40], "cost": (1.0, 0.5, 2.0), "jit": True},
+            {"large": [15, 17, 9], "cost": (2.0, 2.0, 2.0), "jit": True}]
     if tier == "thorough":
         out += [{"large": [511, 500, 9], "cost": (0.5, 1.0, 1.0)}, {"large": [63, 70, 300], "cost": (1.0, 2.0, 3.0)}]
     return out
 
 
-def _large(ctx, R, H, N, cost, seed):
+def _large(ctx, R, H, N, cost, seed, id_offset=0, jit=False):
     """One deliberately larger instance: crosses size-dependent code paths (chunking, dtype limits) that a
-    small scope cannot reach.  Strings come from a fixed linear congruential sequence (VERIF_SEED only shifts it)."""
-    x = 12345 + 7919 * seed
-    def nxt():
-        nonlocal x
-        x = (1103515245 * x + 12345) % (2 ** 31)
-        return x >> 16
-    eos = 3
-    refs, hyps = [], []
-    for n in range(N):
-        r = [nxt() % 3 for _ in range(R)]
-        h = [r[i % R] if nxt() % 4 else nxt() % 3 for i in range(H)]  # hyp resembles ref, with edits
-        if n % 3 == 1:
-            r[nxt() % R] = eos
-        if n % 3 == 2:
-            h[nxt() % H] = eos
-        refs.append(r)
-        hyps.append(h)
-    ref = torch.tensor(refs).t().contiguous()
-    hyp = torch.tensor(hyps).t().contiguous()
+    small scope cannot reach.  Strings come from a fixed linear congruential sequence (VERIF_SEED only shifts it);
+    tensors are offset, non-contiguous views; id_offset moves the alphabet to ids >= 2^24."""
+    eos = 3 + id_offset
+    refs, hyps, ref, hyp = S.large_batch(R, H, N, seed, 3, id_offset)
     ci, cd, cs = (int(round(c * 2)) for c in cost)
     for include_eos in (False, True):
         exp = []
@@ -79,17 +69,28 @@ def _large(ctx, R, H, N, cost, seed):
             r_in, h_in = (ref.t(), hyp.t()) if batch_first else (ref, hyp)
             kw = dict(eos=eos, include_eos=include_eos, batch_first=batch_first, ins_cost=cost[0],
                       del_cost=cost[1], sub_cost=cost[2])
-            case = {"kind": "large", "R": R, "H": H, "N": N, "cost": cost, "seed": seed}
-            for fn in ("edit_distance", "prefix_edit_distances"):
+            case = {"kind": "large", "R": R, "H": H, "N": N, "cost": cost, "seed": seed, "id_offset": id_offset,
+                    "jit": jit}
+            fkw = {k: (float(v) if k.endswith("_cost") else v) for k, v in kw.items()}
+            variants = [("edit_distance", lambda r, h: F.edit_distance(r, h, warn=False, **kw)),
+                        ("prefix_edit_distances", lambda r, h: F.prefix_edit_distances(r, h, warn=False, **kw))]
+            if jit:
+                ex = (torch.full((1, 1), eos, dtype=torch.long),) * 2
+                for nm, v in S.jit_variants(lambda: M.EditDistance(warn=False, **fkw), ex):
+                    variants.append(("edit_distance/" + nm, v))
+                for nm, v in S.jit_variants(lambda: M.PrefixEditDistances(warn=False, **fkw), ex):
+                    variants.append(("prefix_edit_distances/" + nm, v))
+            for fn, call in variants:
                 ctx.case(N, N)
                 try:
-                    if fn == "edit_distance":
-                        out = F.edit_distance(r_in, h_in, warn=False, **kw).tolist()
-                        alone = F.edit_distance(r_in[:, N - 1:] if not batch_first else r_in[N - 1:],
-                                                h_in[:, N - 1:] if not batch_first else h_in[N - 1:],
-                                                warn=False, **kw).tolist()
+                    if isinstance(call, Exception):
+                        raise call
+                    if fn.startswith("edit_distance"):
+                        out = call(r_in, h_in).tolist()
+                        alone = call(r_in[:, N - 1:] if not batch_first else r_in[N - 1:],
+                                     h_in[:, N - 1:] if not batch_first else h_in[N - 1:]).tolist()
                     else:
-                        o = F.prefix_edit_distances(r_in, h_in, warn=False, **kw)
+                        o = call(r_in, h_in)
                         o = o.t() if not batch_first else o
                         out = []
                         for n in range(N):
@@ -102,14 +103,14 @@ def _large(ctx, R, H, N, cost, seed):
                     continue
                 bad = [n for n in range(N) if not S.close(out[n], exp[n])]
                 if bad or not S.close(alone[0], exp[-1]):
-                    ctx.violation({"api": fn, "symptom": "wrong-distance", "large": True,
+                    ctx.violation({"api": fn, "symptom": "wrong-distance", "large": True, "big_ids": bool(id_offset),
                                    "only_in_batch": bool(bad) and S.close(alone[0], exp[-1])},
                                   dict(case, include_eos=include_eos, batch_first=batch_first),
                                   {"first_bad_pair": bad[:3], "expected": [exp[n] for n in bad[:3]],
                                    "observed": [out[n] for n in bad[:3]]})
                 else:
                     ctx.outcome(round(sum(exp)))
-    ctx.sample({"large_instance": {"R": R, "H": H, "N": N, "cost": cost}})
+    ctx.sample({"large_instance": {"R": R, "H": H, "N": N, "cost": cost, "id_offset": id_offset, "jit": jit}})
 
 
 def _check_batch(ctx, pairs, ref, hyp, eos, include_eos, cost, tier, tag, modules, single=False):
@@ -244,7 +245,8 @@ def run_shard(spec, tier, seed):
         for gs in S.GLOBAL_STATES:  # the same instance under every global torch state: results must not change
             sub = Ctx()
             with S.global_state(gs):
-                _large(sub, *spec["large"], tuple(spec["cost"]), seed)
+                _large(sub, *spec["large"], tuple(spec["cost"]), seed, spec.get("id_offset", 0),
+                       spec.get("jit", False) and gs == "default")
             for v in sub.violations:
                 v["sig"]["global_state"] = gs
             sub.viol_count = type(sub.viol_count)({k.replace("}", ', "global_state": "%s"}' % gs, 1) if k.endswith("}") else k: n
@@ -281,7 +283,8 @@ def run_shard(spec, tier, seed):
 def replay(case):
     ctx = Ctx()
     if case.get("kind") == "large":
-        _large(ctx, case["R"], case["H"], case["N"], tuple(case["cost"]), case["seed"])
+        _large(ctx, case["R"], case["H"], case["N"], tuple(case["cost"]), case["seed"], case.get("id_offset", 0),
+               case.get("jit", False))
         return ctx
     ref = torch.tensor([case["ref"]], dtype=torch.long).t().contiguous().view(len(case["ref"]), 1)
     hyp = torch.tensor([case["hyp"]], dtype=torch.long).t().contiguous().view(len(case["hyp"]), 1)
